@@ -9,7 +9,8 @@ import numpy as np
 from . import c10_num as N
 from . import tla_values
 
-TEMP_LISTS = [[0, 1], [-1, 0, 1], [1], [0], [1, 0], [0, -1, 1, 0], [-1, 1], [1, -1, 0], [-1, 0]]
+TEMP_LISTS = [[0, 1], [-1, 0, 1], [1], [0], [1, 0], [0, -1, 1, 0], [-1, 1], [1, -1, 0], [-1, 0],
+              [1, 0, 1], [0, 0, 1, 1], [1, 1], [-1, -1], []]
 
 
 def random_config(rng, cid, small=False):
@@ -123,7 +124,8 @@ def project_run(real, o):
     else:
         p = o["proj"]
         comps = []
-        nb = np.asarray(p["F"]).shape[1]
+        nb = len(cfg["lev"][0])
+        p = {k: (np.asarray(v, dtype=float).reshape(-1, nb) if k != "T" else v) for k, v in p.items()}
         for k in range(nb):
             c = dict(present=pos["present"], exact=True, F=_sig_from({}, cl), S=_sig_from({}, cl), Cv=_sig_from({}, cl), z0=0)
             if pos["present"]:
